@@ -209,6 +209,13 @@ pub fn run_histories(lines: &[Value], out: &mut Vec<Value>) {
     }
 }
 
+/// One long history: `steps` calls cycling through the menu on `nthreads` threads with a forced hand-off order (state that
+/// only builds up over many calls)
+pub fn long_history(nthreads: usize, steps: usize) -> Value {
+    let st: Vec<Value> = (0..steps).map(|i| json!({"th": 1 + (i * 7 + i / 5) % nthreads, "call": (i * 5 + i / 12) % NCALLS})).collect();
+    json!({"threads": nthreads, "steps": st})
+}
+
 /// N threads start together in this (fresh) process, each running every call in its own order.
 pub fn race(nthreads: usize, run: u64, out: &mut Vec<Value>) {
     let barrier = Arc::new(Barrier::new(nthreads));
